@@ -5,7 +5,8 @@ id=$1; prop=$2; shift 2
 sc=/tmp/wt/run_${id}_$$
 git -C /repo worktree add -q --detach $sc HEAD || exit 1
 (cd $sc && git apply /verif/seeded/$id/patch.diff) || { git -C /repo worktree remove --force $sc; exit 1; }
-(cd /verif && VERIF_REPO=$sc ./check $prop --tier ${TIER:-quick} -noevidence "$@")
+vdir=${SEED_VERIF:-/verif}
+(cd $vdir && VERIF_REPO=$sc ./check $prop --tier ${TIER:-quick} -noevidence "$@")
 rc=$?
 git -C /repo worktree remove --force $sc
 exit $rc
